@@ -1,5 +1,7 @@
 package scipipe
 
+import "strings"
+
 // C18: a joined in-port ({i:x|join:SEP}) receives the whole sub-stream, once, in order.
 
 func vxMember18(name string, L int) string {
@@ -17,13 +19,16 @@ func VxH18join() {
 	vxSetEnv("SCIPIPE_BUFSIZE", "1") // sub-streams longer than the channel buffer
 	seps := []string{" ", ",", ":"}
 	sep := seps[vxChoice("sep", len(seps))]
-	mod := vxChoice("mod", 3) // 1 / 2: with a %suffix modifier after / before the join modifier
+	mod := vxChoice("mod", 4) // 1 / 2: with a %suffix modifier after / before the join modifier; 3: a modifier that is not idempotent (s/a/bb/) after it
 	pat := "cat {i:in|join:" + sep + "} > {o:out}"
 	if mod == 1 {
 		pat = "cat {i:in|join:" + sep + "|%.t} > {o:out}"
 	}
 	if mod == 2 {
 		pat = "cat {i:in|%.t|join:" + sep + "} > {o:out}"
+	}
+	if mod == 3 {
+		pat = "cat {i:in|join:" + sep + "|s/a/bb/} > {o:out}"
 	}
 	wf := newWorkflowWithoutLogging("w", 4)
 	p := NewProc(wf, "p", pat)
@@ -53,25 +58,33 @@ func VxH18join() {
 	})
 	vxAssert(kind == "returned", "C18.task-formed")
 	vxReach("task-built")
-	exp := ""
+	exp, expAll := "", ""
 	for i, m := range members {
 		if i > 0 {
 			exp += sep
+			expAll += sep
 		}
 		v, alt := m, m
-		if mod >= 1 {
+		if mod == 1 || mod == 2 {
 			v, alt = vxRefTrim(m, ".t"), vxRefTrimAlt(m, ".t")
 			_ = alt
 		}
+		if mod == 3 {
+			// "simple search and replace": the first or every occurrence, once per member
+			exp += vxRefPrefix(strings.Replace(m, "a", "bb", 1))
+			expAll += vxRefPrefix(strings.Replace(m, "a", "bb", -1))
+			continue
+		}
 		exp += vxRefPrefix(v)
+		expAll += vxRefPrefix(v)
 	}
-	if mod >= 1 {
+	if mod == 1 || mod == 2 {
 		// whole-value suffixes are excluded here to keep one admissible outcome
 		for _, m := range members {
 			vxAssume(m != ".t")
 		}
 	}
-	vxAssert(t.Command == "cat "+exp+" > o.txt", "C18.joined-in-order")
+	vxAssert(vxOr(t.Command == "cat "+exp+" > o.txt", t.Command == "cat "+expAll+" > o.txt"), "C18.joined-in-order")
 	// every member is known to the task (audit upstream and temp-dir identity use this list)
 	got := t.subStreamIPs["in"]
 	vxAssert(len(got) == n, "C18.all-members-collected")
